@@ -976,9 +976,12 @@ func runStaleMember(c *Case) {
 	c.Nontrivial(fmt.Sprintf("stale %d %d %d", bobID, idOf(newcomer), r.Intn(1<<30)))
 }
 
+// c12ExtraFamilies: families registered by the other c12_*.go files.
+var c12ExtraFamilies []*Family
+
 func init() {
 	props["C12"] = func(x *Ctx) {
-		x.rule = "histories of login / disconnect / invite-to-new-chat / invite / join / leave / decline / set-subject / send (public, private, emote, odd option values) and account edits (an administrator's TranSetUser flipping read-chat / send-chat / open-chat of an account, the disconnect-user bit untouched in 85 % of them; audiences are then judged by the account's current access) by 2-8 clients drawn from 9 accounts covering every combination of read-chat, send-chat and open-chat (plus an administrator); names and messages are arbitrary byte strings (ASCII, Mac-Roman, valid UTF-8 of width 2-4, truncated / overlong / surrogate sequences, NUL, CR) with lengths biased to 0,1,12..15 and 8150..9000; chat ids are the ones the server drew. Every handler result is compared with the Lean model's output for the same history and judged directly (audience computed from the membership implied by the history; text by a reference formatter). stale-member: a member disconnects, the id counter is moved past the wrap so that a newcomer is handed its id, then lines / subject / decline / join / leave traffic of that chat is judged (members exactly once, newcomer nothing, until it joins). chat-stalled-reader: 4-7 clients over real connections and the real processOutbox; after 4-9 events in which everybody reads (chats are built with the future non-readers in them) one or two clients stop reading — every Write to their connection blocks from the 1st, 2nd or 4th write on — while the others go on for 10-23 events (lines, subjects, joins, leaves, declines, invitations also to the non-readers, logins, departures); the reading clients' inboxes are judged while the others are blocked, the non-readers' after they were released. non-trivial = the history contains a public line with both a reader and a non-reader connected, or a private line / notice with both a connected member and a connected non-member; (chat-stalled-reader: during the stall at least one chat transaction was addressed to a blocked connection and one to a reading connection, and at least one write blocked); distinct = distinct event lists"
+		x.rule = "histories of login / disconnect / invite-to-new-chat / invite / join / leave / decline / set-subject / send (public, private, emote, odd option values) and account edits (an administrator's TranSetUser flipping read-chat / send-chat / open-chat of an account, the disconnect-user bit untouched in 85 % of them; audiences are then judged by the account's current access) by 2-8 clients drawn from 9 accounts covering every combination of read-chat, send-chat and open-chat (plus an administrator); names and messages are arbitrary byte strings (ASCII, Mac-Roman, valid UTF-8 of width 2-4, truncated / overlong / surrogate sequences, NUL, CR) with lengths biased to 0,1,12..15 and 8150..9000; chat ids are the ones the server drew. Every handler result is compared with the Lean model's output for the same history and judged directly (audience computed from the membership implied by the history; text by a reference formatter). stale-member: a member disconnects, the id counter is moved past the wrap so that a newcomer is handed its id, then lines / subject / decline / join / leave traffic of that chat is judged (members exactly once, newcomer nothing, until it joins). chat-stalled-reader: 4-7 clients over real connections and the real processOutbox; after 4-9 events in which everybody reads (chats are built with the future non-readers in them) one or two clients stop reading — every Write to their connection blocks from the 1st, 2nd or 4th write on — while the others go on for 10-23 events (lines, subjects, joins, leaves, declines, invitations also to the non-readers, logins, departures); the reading clients' inboxes are judged while the others are blocked, the non-readers' after they were released. chat-e2e-burst: 6-10 clients registered on in-memory connections as handleNewConnection registers them after a login (two senders who may do everything, the rest drawn from readers, members-to-be and accounts that may not read chat), a private chat some of them join, then one or (50 %) two senders put 100-220 (+30-110) requests BACK TO BACK into ClientConn.handleTransaction without waiting — public lines 65 %, private-chat lines 27 %, subject changes 8 %, every line carrying its own serial number — followed by a leave and a join; all of it through handler -> Server.outbox -> the real processOutbox (one goroutine per transaction) -> sendTransaction; at quiescence (waited for by the total number of deliveries, never by time) every connection's inbox must be, as a multiset, exactly what the model's chatInboxes says (each transaction once, nothing foreign). non-trivial = the history contains a public line with both a reader and a non-reader connected, or a private line / notice with both a connected member and a connected non-member; (chat-stalled-reader: during the stall at least one chat transaction was addressed to a blocked connection and one to a reading connection, and at least one write blocked); distinct = distinct event lists"
 		x.assume = []string{
 			"a single net.Conn.Write is atomic (end-to-end runs use an in-memory connection with that behaviour)",
 			"histories are sequential (one request is handled at a time); concurrent schedules are C14's subject",
@@ -1024,5 +1027,9 @@ func init() {
 		x.Add(&Family{Name: "stale-member", Quick: 60, Thor: 1500, Run: runStaleMember})
 		// wave d: one or two members of the audience stop reading (every Write to them blocks) — c12_stall.go
 		x.Add(&Family{Name: "chat-stalled-reader", Quick: 40, Thor: 600, Run: runChatStalled})
+		// wave e: bursts of 100+ back-to-back requests through the real dispatcher to 6..10 connections — c12_burst.go
+		for _, f := range c12ExtraFamilies {
+			x.Add(f)
+		}
 	}
 }
